@@ -14,6 +14,7 @@
 #include <fcntl.h>
 #include <linux/futex.h>
 #include <map>
+#include <unordered_map>
 #include <pthread.h>
 #include <sched.h>
 #include <tuple>
@@ -59,15 +60,22 @@ uint64_t rnd_fault() { return xs(W->rng_fault); }
 
 // ---------------------------------------------------------------- baton
 static int futex(std::atomic<int>* a, int op, int v) { return syscall(SYS_futex, (int*)a, op, v, nullptr, nullptr, 0); }
+// true from the moment this thread is released from park() until it hands the baton on.  (W->cur == me is not the same
+// thing: a freshly created thread can still be in its start-up code when the scheduler already made it current, and what
+// it does there -- allocations in particular -- must not be taken for scheduled execution.)
+thread_local bool have_baton = false;
 static void park(int t) {
   int s = 0;
+  have_baton = false;
   while (W->T[t].go.load(std::memory_order_acquire) == 0) {
     if (++s < g_parkspin) __builtin_ia32_pause();
     else futex(&W->T[t].go, FUTEX_WAIT, 0);
   }
   W->T[t].go.store(0, std::memory_order_relaxed);
+  have_baton = true;
 }
 static void wake(int t) {
+  have_baton = false;
   W->T[t].go.store(1, std::memory_order_release);
   futex(&W->T[t].go, FUTEX_WAKE, 1);
 }
@@ -344,6 +352,7 @@ bool fault(int kind, int64_t* param, int64_t pmax) {
     p = it->second;
   } else {
     if (W->fair_mode || !W->fenabled[kind]) return false;
+    if (W->nfault >= MAXFAULT) return false;   // keep the record complete: no unrecorded faults
     if ((rnd_fault() % 1000000) >= (uint64_t)(W->frate[kind] * 1000000)) return false;
     p = pmax > 0 ? (int64_t)(rnd_fault() % (uint64_t)pmax) : 0;
   }
@@ -351,6 +360,36 @@ bool fault(int kind, int64_t* param, int64_t pmax) {
   W->ffired[kind]++;
   if (param) *param = p;
   return true;
+}
+
+// plain access by instrumented code: a decision point when the location is contended -- its accessor changed at least
+// twice (created by one thread, used by a second one, then touched by a third party or handed back: private data that
+// was merely initialised by another thread does not qualify) -- and the VF_PLAIN_PREEMPT coin says so.  From then on every
+// access to it qualifies, including the write half of a read-modify-write sequence.
+static int plain_window = 0;   // switched on by the harness around calls into the code under test
+static uint16_t plain_last[1 << 16];   // low 8 bits: last accessor + 1, bits 8..9: number of accessor changes (saturating)
+void plain_access(const void* a, bool wr) {
+  if (!W->fenabled[VF_PLAIN_PREEMPT] && !W->replay) return;
+  uint32_t slot = (uint32_t)(((uintptr_t)a >> 3) * 2654435761u) >> 16;
+  uint16_t e = plain_last[slot];
+  unsigned last = e & 0xff, changes = e >> 8;
+  if (last != (unsigned)(me + 1)) { if (last && changes < 3) changes++; plain_last[slot] = (uint16_t)((changes << 8) | (unsigned)(me + 1)); }
+  if (trace_fd >= 0 && getenv("VSIM_TRACE_PLAIN")) { char b[96]; int n = snprintf(b, sizeof b, "%lu P t%d %s %p ch=%u\n", (unsigned long)W->step, me, wr ? "W" : "R", a, changes); syscall(SYS_write, trace_fd, b, n); }
+  if (!plain_window || W->T[me].plain_hold) return;
+  if (changes < 2) {
+    // ... or it lives on another thread's stack (state of a parallel construct that the workers reach through a pointer:
+    // the first writer's read-modify-write must be splittable before any sharing has been observed)
+    uintptr_t u = (uintptr_t)a; int owner = -2;
+    if (u >= 0x7d0000000000ull && u < 0x7d0000000000ull + (512ull << 20)) owner = -1;   // the initial thread of this process
+    else if (u >= 0x7b0000000000ull && u < 0x7b0000000000ull + (uintptr_t)MAXT * (17ul << 20)) owner = (int)((u - 0x7b0000000000ull) / (17ul << 20));
+    if (owner == -2 || owner == me || (owner == -1 && W->T[me].lid == 0)) return;
+  }
+  int64_t len = 0;
+  if (!fault(VF_PLAIN_PREEMPT, &len, 400)) return;
+  // preempt for real: the thread is held back for a while so that the others get to the same data
+  if (!W->fair_mode) W->T[me].stall_until = W->step + 3 + (uint64_t)len;
+  pre(wr ? 10 : 9, a);
+  if (wr) { W->T[me].spin = 0; wrote(); } else post(false);
 }
 
 int choice(int n) {
@@ -457,6 +496,8 @@ void vsim_known(const char* key, const char* fmt, ...) {
   for (int i = 0; i < W->nknown; i++) if (!strncmp(W->known[i], key, strlen(key))) return;
   if (W->nknown < 8) snprintf(W->known[W->nknown++], 256, "%s\t%s", key, buf);
 }
+void vsim_plain_preempt_window(int on_) { gs::plain_window = on_; }
+void vsim_plain_hold(int on_) { if (gs::on()) W->T[gs::me].plain_hold = on_; }
 void vsim_phase(const char* label) { snprintf(W->phase, sizeof W->phase, "%s", label); }
 
 }  // extern "C"
